@@ -19,7 +19,7 @@ VFX = os.environ.get("VERIF_VFX", "/verif/.cache/vfx-target/release/vfx")
 
 
 # zero-argument `&self` observers of dependency / crate types: modelled as uninterpreted functions of the receiver
-PURE_GETTERS = {"size", "is_zero", "is_empty", "degree", "is_identity", "is_on_curve", "is_torsion_free", "is_some", "is_none",
+PURE_GETTERS = {"to_bits", "to_bytes", "size", "is_zero", "is_empty", "degree", "is_identity", "is_on_curve", "is_torsion_free", "is_some", "is_none",
                 "max_degree", "constraints", "unwrap"}
 
 
@@ -989,6 +989,15 @@ class Interp:
                 self.fail(e, "effects inside map over a symbolic collection")
             self.ctx.log = saved
             return VSymIter(Sym(VOpaque("map_each", [recv.sym, body]).canon()))
+        if m in ("any", "all") and isinstance(recv, VSymIter) and isinstance(args[0], VClosure):
+            saved = self.ctx.log
+            self.ctx.log = []
+            body = self.call_closure(args[0], [Sym(recv.sym.path + "[*]")])
+            if self.ctx.log:
+                self.ctx.log = saved
+                self.fail(e, "effects inside any/all over a symbolic collection")
+            self.ctx.log = saved
+            return VOpaque(m, [recv.sym, body])
         if m == "collect" and isinstance(recv, VSymIter):
             return VOpaque("collected", [recv.sym])
         if m == "map" and isinstance(recv, VIter) and isinstance(args[0], VClosure):
@@ -1357,17 +1366,22 @@ def run_unit(root, unit, contracts, seed=0, perturb=None):
                     cv_ = set()
                     for c, _t in pcs:
                         cv_ |= _value_vars(c)
-                    if dv is None or (dv & cv_):
+                    if _shape(a) != _shape(b):
+                        und = False      # the SEQUENCE of operations differs on this path: no value-level argument can repair that
+                    elif dv is None or (dv & cv_):
                         und = True
                     detail = f"on the path [{pc_txt}]: {detail}"
             if k not in worst or (worst[k][0] and not ok):
                 worst[k] = (ok, detail, cex, und)
+    definite = any((not ok) and (not und) for (ok, _d, _c, und) in worst.values())
     for k, (ok, detail, cex, und) in worst.items():
         oid = f"{unit.name}.{k}"
         b = out2.get(k)
         if not ok and und:
-            raise OutsideFragment(f"{oid}: code and contract differ on a path whose condition constrains the differing values; "
-                                  f"cannot decide ({detail[:300]})")
+            if not definite:
+                raise OutsideFragment(f"{oid}: code and contract differ on a path whose condition constrains the differing values; "
+                                      f"cannot decide ({detail[:300]})")
+            continue      # another output of this unit fails definitely: report that one, leave this one out
         ob = {"id": oid, "unit": unit.name, "kind": "ring",
               "text": f"{unit.fn}: {k} == {show(b)[:240] if not isinstance(b, list) else '[%d items]' % len(b)}" + (f" on all {len(paths)} paths" if len(paths) > 1 else ""),
               "status": "discharged" if ok else "failed", "detail": detail, "cex": cex, "backend": "ringcheck"}
@@ -1375,6 +1389,15 @@ def run_unit(root, unit, contracts, seed=0, perturb=None):
             ob["recipe"] = unit.replay
         obs.append(ob)
     return obs, calls
+
+
+def _shape(v):
+    """operation skeleton of an event list / exit list: names and arities only"""
+    if isinstance(v, list):
+        return [(_shape(x)) for x in v]
+    if isinstance(v, tuple) and v and isinstance(v[0], str):
+        return (v[0], len(v))
+    return None
 
 
 def _resolve_ite(v, pcs):
